@@ -174,6 +174,13 @@ func c17Batch(cfg c17Cfg, progs []c01Prog) {
 			fout = o
 		}
 	}
+	// structural tie of the lowering model to what tinyfo really emitted, per function
+	if len(progs) > 1 {
+		gcEmitLowering(tgo, gHelperFuncs())
+	}
+	for _, p := range progs {
+		gcEmitLowering(tgo, p.funcs)
+	}
 	chunks := strings.Split(tout, c01End+"\n")
 	fchunks := strings.Split(fout, c01End+"\n")
 	for i, p := range progs {
@@ -182,6 +189,7 @@ func c17Batch(cfg c17Cfg, progs []c01Prog) {
 			got = vsxStr(chunks[i])
 		}
 		vEmitIO(c01ProgSx(p), got)
+		vEmitIO(semProgSx(p), got)
 		vstat("programs")
 		if fgo != "" && i < len(chunks) && i < len(fchunks) {
 			vstat("compared-with-fc")
